@@ -139,14 +139,14 @@ theorem shape_of_valid : ∀ (t : Ty) (v : J), valid t v = true → Shape t v :=
     case obj kvs =>
       rw [worst_eq_ok] at h
       refine Shape.tmap _ _ ?_ ?_
-      · intro k v hg
+      · intro kv hkv
         apply ih
-        have := h _ (List.mem_map.mpr ⟨(k, v), mem_dedupLast_iff.mpr hg, rfl⟩)
+        have := h _ (List.mem_map.mpr ⟨kv, hkv, rfl⟩)
         rw [Verdict.max_eq_ok] at this
         simp only [valid, beq_iff_eq]
         exact this.1
-      · intro hd k v hg
-        have := h _ (List.mem_map.mpr ⟨(k, v), mem_dedupLast_iff.mpr hg, rfl⟩)
+      · intro hd kv hkv
+        have := h _ (List.mem_map.mpr ⟨kv, hkv, rfl⟩)
         rw [Verdict.max_eq_ok] at this
         have h2 := this.2
         simp [hd] at h2
@@ -192,12 +192,11 @@ theorem valid_of_shape : ∀ (t : Ty) (v : J), Shape t v → valid t v = true :=
     | null => exact valid_null _
     | tmap _ kvs h1 h2 =>
       simp only [valid, check, beq_iff_eq, worst_eq_ok, List.mem_map]
-      rintro _ ⟨⟨k, v⟩, hkv, rfl⟩
-      have hg := mem_dedupLast_iff.mp hkv
+      rintro _ ⟨kv, hkv, rfl⟩
       rw [Verdict.max_eq_ok]
-      refine ⟨by simpa [valid] using ih _ (h1 k v hg), ?_⟩
+      refine ⟨by simpa [valid] using ih _ (h1 kv hkv), ?_⟩
       by_cases hd : isDirMap t = true
-      · simp [hd, h2 hd k v hg]
+      · simp [hd, h2 hd kv hkv]
       · simp [hd]
   | struct n fs ih =>
     intro v h
@@ -250,24 +249,16 @@ theorem filter_arr_fst (t : Ty) (xs : List J) :
     have : (fun x => (filter t x).1) = id := funext fun x => filter_fst_of_not_canFilter t x h'
     rw [this, List.map_id]
 
-theorem filter_tmap_fst (t : Ty) (kvs : List (Bytes × J)) (h : canFilter t = true) :
-    (filter (.tmap t) (.obj kvs)).1 =
-      .obj ((dedupLast kvs).map (fun kv => (kv.1, (filter t kv.2).1))) := by
-  simp [filter, h]
-
-/-- the result of filtering an object to a typed map, described by member
-lookup (holds whether or not the element type can filter) -/
-theorem filter_tmap_getKey (t : Ty) (kvs : List (Bytes × J)) :
-    ∃ out, (filter (.tmap t) (.obj kvs)).1 = .obj out ∧
-      ∀ k, getKey k out = (getKey k kvs).map (fun v => (filter t v).1) := by
+theorem filter_tmap_fst (t : Ty) (kvs : List (Bytes × J)) :
+    (filter (.tmap t) (.obj kvs)).1 = .obj (kvs.map (fun kv => (kv.1, (filter t kv.2).1))) := by
   by_cases h : canFilter t = true
-  · refine ⟨_, filter_tmap_fst t kvs h, fun k => ?_⟩
-    rw [getKey_mapVal (fun v => (filter t v).1), getKey_dedupLast]
+  · simp [filter, h]
   · have h' : canFilter t = false := by simpa using h
-    refine ⟨kvs, filter_fst_of_not_canFilter _ _ (by simpa [canFilter] using h'), fun k => ?_⟩
-    cases getKey k kvs with
-    | none => rfl
-    | some v => simp [filter_fst_of_not_canFilter t v h']
+    simp only [filter, h', Bool.not_false, ↓reduceIte]
+    congr 1
+    have : (fun kv : Bytes × J => (kv.1, (filter t kv.2).1)) = id :=
+      funext fun kv => by simp [filter_fst_of_not_canFilter t kv.2 h']
+    rw [this, List.map_id]
 
 /-- what `filterFields` writes for one declared member -/
 def fieldOut (t : Ty) : Option J → J
@@ -385,16 +376,11 @@ theorem filter_idem (t : Ty) : t.wf = true → ∀ v, (filter t (filter t v).1).
     have ih := ih (by simpa [Ty.wf] using hwf)
     cases v with
     | obj kvs =>
-      by_cases hc : canFilter t = true
-      · rw [filter_tmap_fst t kvs hc, filter_tmap_fst t _ hc,
-          dedupLast_of_nodup (by rw [keys_mapVal (fun kv => (filter t kv.2).1)]; exact keys_dedupLast_nodup kvs),
-          List.map_map]
-        congr 1
-        apply List.map_congr_left
-        intro kv _
-        simp [ih]
-      · have h' : canFilter (.tmap t) = false := by simpa [canFilter] using hc
-        rw [filter_fst_of_not_canFilter _ _ h']
+      rw [filter_tmap_fst, filter_tmap_fst, List.map_map]
+      congr 1
+      apply List.map_congr_left
+      intro kv _
+      simp [ih]
     | _ => by_cases hc : canFilter t = true <;> simp [filter, hc]
   | struct n fs ih =>
     intro hwf v
@@ -479,8 +465,7 @@ theorem filter_drops (t : Ty) : ∀ v, (filter t v).2 ≠ .fatal → Drops (filt
       | obj kvs =>
         simp only [filter, hc, Bool.not_true, Bool.false_eq_true, ↓reduceIte] at h ⊢
         rw [worstF_ne_fatal] at h
-        refine Drops.obj (dropsO_map (fun kv => (filter t kv.2).1) kvs (dedupLast kvs)
-          fun kv hkv => ⟨mem_of_mem_dedupLast hkv, ih kv.2 ?_⟩)
+        refine Drops.obj (dropsO_map (fun kv => (filter t kv.2).1) kvs kvs fun kv hkv => ⟨hkv, ih kv.2 ?_⟩)
         exact h _ (List.mem_map.mpr ⟨kv, hkv, rfl⟩)
       | _ => simp only [filter, hc, Bool.not_true, Bool.false_eq_true, ↓reduceIte]; exact Drops.refl _
     · rw [filter_fst_of_not_canFilter _ _ (by simpa [canFilter] using hc)]; exact Drops.refl _
@@ -647,27 +632,18 @@ theorem shape_filter_of_assignable (d : Ty) : d.wf = true → ∀ (s : Ty) (v : 
       cases hs with
       | null => rw [filter_null]; constructor
       | tmap _ kvs h1 h2 =>
-        obtain ⟨out, hout, hget⟩ := filter_tmap_getKey d kvs
-        rw [hout]
+        rw [filter_tmap_fst]
         refine Shape.tmap _ _ ?_ ?_
-        · intro k w hw
-          rw [hget] at hw
-          cases hg : getKey k kvs with
-          | none => simp [hg] at hw
-          | some x =>
-            simp only [hg, Option.map_some, Option.some.injEq] at hw
-            subst hw
-            exact ih s' x (h1 k x hg) ha hn.2
-        · intro hd k w hw
-          rw [hget] at hw
-          cases hg : getKey k kvs with
-          | none => simp [hg] at hw
-          | some x =>
-            have : isDirMap s' = true := by
-              rcases hn.1 with h | h
-              · rw [hd] at h; cases h
-              · exact h
-            exact h2 this k x hg
+        · intro y hy
+          obtain ⟨kv, hkv, rfl⟩ := List.mem_map.mp hy
+          exact ih s' kv.2 (h1 kv hkv) ha hn.2
+        · intro hd y hy
+          obtain ⟨kv, hkv, rfl⟩ := List.mem_map.mp hy
+          have : isDirMap s' = true := by
+            rcases hn.1 with h | h
+            · rw [hd] at h; cases h
+            · exact h
+          exact h2 this kv hkv
     | struct n fs => simp [noHole] at hn
     | _ => simp [assignable] at ha
   | struct n fs ih =>
@@ -764,8 +740,8 @@ theorem filter_ok_of_valid (t : Ty) : ∀ v, valid t v = true → (filter t v).2
         simp only [filter, hc, Bool.not_true, Bool.false_eq_true, ↓reduceIte]
         apply worstF_eq_ok
         rintro _ hm
-        obtain ⟨⟨k, x⟩, hxm, rfl⟩ := List.mem_map.mp hm
-        exact ih x (valid_of_shape _ _ (h1 k x (mem_dedupLast_iff.mp hxm)))
+        obtain ⟨kv, hxm, rfl⟩ := List.mem_map.mp hm
+        exact ih kv.2 (valid_of_shape _ _ (h1 kv hxm))
     · simp [filter, hc]
   | struct n fs ih =>
     intro v h
@@ -808,29 +784,12 @@ theorem filter_fst_of_valid_scalar (s : Ty) (v : J) (hs : valid s v = true)
 /-- Narrowing chain: for a value that is valid at the wider type `s`,
 filtering to `s` first and then to the narrower `d` gives the same value as
 filtering to `d` directly. -/
-theorem dupFreeFields_iff : ∀ (fs : Fields) (kvs : List (Bytes × J)),
-    dupFreeFields fs kvs = true ↔
-      ∀ k t v, (k, t) ∈ fs.toList → getKey k kvs = some v → dupFree t v = true
-  | .nil, kvs => by simp [dupFreeFields, Fields.toList]
-  | .cons k t r, kvs => by
-    have ih := dupFreeFields_iff r kvs
-    simp only [dupFreeFields, Bool.and_eq_true, ih, Fields.toList, List.mem_cons, Prod.mk.injEq]
-    constructor
-    · rintro ⟨h1, h2⟩ k' t' v (⟨rfl, rfl⟩ | h) hg
-      · simpa [hg] using h1
-      · exact h2 _ _ _ h hg
-    · intro h
-      refine ⟨?_, fun k' t' v h' hg => h _ _ _ (Or.inr h') hg⟩
-      cases hg : getKey k kvs with
-      | none => rfl
-      | some v => exact h k t v (Or.inl ⟨rfl, rfl⟩) hg
-
 theorem filter_chain (d : Ty) : d.wf = true → ∀ (s : Ty) (v : J), s.wf = true → valid s v = true →
-    dupFree s v = true → assignable d s = true → pureNarrow d s = true →
+    assignable d s = true → pureNarrow d s = true →
     (filter d (filter s v).1).1 = (filter d v).1 := by
   induction d using Ty.induct' with
   | base b =>
-    intro _ s v _ hs _ ha hp
+    intro _ s v _ hs ha hp
     cases s with
     | base s' => rw [filter_fst_of_valid_scalar _ v hs (Or.inl ⟨s', rfl⟩)]
     | user m => rw [filter_fst_of_valid_scalar _ v hs (Or.inr ⟨m, rfl⟩)]
@@ -838,13 +797,13 @@ theorem filter_chain (d : Ty) : d.wf = true → ∀ (s : Ty) (v : J), s.wf = tru
     | tmap t => simp [assignable] at ha; simp [pureNarrow, ha] at hp
     | arr t => simp [assignable] at ha
   | user n =>
-    intro _ s v _ hs _ ha _
+    intro _ s v _ hs ha _
     cases s with
     | base s' => rw [filter_fst_of_valid_scalar _ v hs (Or.inl ⟨s', rfl⟩)]
     | user m => rw [filter_fst_of_valid_scalar _ v hs (Or.inr ⟨m, rfl⟩)]
     | _ => simp [assignable] at ha
   | arr d ih =>
-    intro hwf s v hswf hs hdf ha hp
+    intro hwf s v hswf hs ha hp
     have ih := ih (by simpa [Ty.wf] using hwf)
     cases s with
     | arr s' =>
@@ -859,13 +818,10 @@ theorem filter_chain (d : Ty) : d.wf = true → ∀ (s : Ty) (v : J), s.wf = tru
         congr 1
         apply List.map_congr_left
         intro x hxm
-        have hdx : dupFree s' x = true := by
-          simp only [dupFree, List.all_eq_true] at hdf
-          exact hdf x hxm
-        exact ih s' x hswf' (valid_of_shape _ _ (hx x hxm)) hdx ha hp
+        exact ih s' x hswf' (valid_of_shape _ _ (hx x hxm)) ha hp
     | _ => simp [assignable] at ha
   | tmap d ih =>
-    intro hwf s v hswf hs hdf ha hp
+    intro hwf s v hswf hs ha hp
     have ih := ih (by simpa [Ty.wf] using hwf)
     cases s with
     | tmap s' =>
@@ -876,39 +832,16 @@ theorem filter_chain (d : Ty) : d.wf = true → ∀ (s : Ty) (v : J), s.wf = tru
       cases hsh with
       | null => rw [filter_null]
       | tmap _ kvs h1 _ =>
-        simp only [dupFree, Bool.and_eq_true, decide_eq_true_eq, List.all_eq_true] at hdf
-        have hdd : dedupLast kvs = kvs := dedupLast_of_nodup hdf.1
-        have helem : ∀ kv ∈ kvs, (filter d (filter s' kv.2).1).1 = (filter d kv.2).1 := by
-          rintro ⟨k, x⟩ hm
-          have hg : getKey k kvs = some x := mem_dedupLast_iff.mp (by rw [hdd]; exact hm)
-          exact ih s' x hswf' (valid_of_shape _ _ (h1 k x hg)) (hdf.2 _ hm) ha hp
-        by_cases hcs : canFilter s' = true
-        · rw [filter_tmap_fst s' kvs hcs, hdd]
-          by_cases hcd : canFilter d = true
-          · rw [filter_tmap_fst d _ hcd, filter_tmap_fst d kvs hcd, hdd,
-              dedupLast_of_nodup (by rw [keys_mapVal (fun kv => (filter s' kv.2).1)]; exact hdf.1),
-              List.map_map]
-            congr 1
-            apply List.map_congr_left
-            rintro ⟨k, x⟩ hm
-            simp only [Function.comp, Prod.mk.injEq, true_and]
-            exact helem _ hm
-          · have hd' : canFilter d = false := by simpa using hcd
-            have hD : canFilter (.tmap d) = false := by simpa [canFilter] using hd'
-            rw [filter_fst_of_not_canFilter _ _ hD, filter_fst_of_not_canFilter _ _ hD]
-            congr 1
-            have : ∀ kv ∈ kvs, (fun kv : Bytes × J => (kv.1, (filter s' kv.2).1)) kv = kv := by
-              rintro ⟨k, x⟩ hm
-              have := helem _ hm
-              rw [filter_fst_of_not_canFilter d _ hd', filter_fst_of_not_canFilter d _ hd'] at this
-              simp [this]
-            rw [List.map_congr_left this, List.map_id']
-        · have hS : canFilter (.tmap s') = false := by simpa [canFilter] using hcs
-          rw [filter_fst_of_not_canFilter _ _ hS]
+        rw [filter_tmap_fst, filter_tmap_fst, filter_tmap_fst, List.map_map]
+        congr 1
+        apply List.map_congr_left
+        intro kv hm
+        simp only [Function.comp, Prod.mk.injEq, true_and]
+        exact ih s' kv.2 hswf' (valid_of_shape _ _ (h1 kv hm)) ha hp
     | struct n fs => simp [pureNarrow] at hp
     | _ => simp [assignable] at ha
   | struct n fs ih =>
-    intro hwf s v hswf hs hdf ha hp
+    intro hwf s v hswf hs ha hp
     have hwf' := Fields.wf_iff.mp (by simpa [Ty.wf] using hwf)
     cases s with
     | struct n' fs' =>
@@ -919,7 +852,6 @@ theorem filter_chain (d : Ty) : d.wf = true → ∀ (s : Ty) (v : J), s.wf = tru
       cases hsh with
       | null => rw [filter_null]
       | struct _ _ kvs h1 h2 =>
-        simp only [dupFree, dupFreeFields_iff] at hdf
         rw [filter_struct_fst n' fs' kvs, filter_struct_fst, filter_struct_fst]
         congr 1
         apply List.map_congr_left
@@ -937,7 +869,7 @@ theorem filter_chain (d : Ty) : d.wf = true → ∀ (s : Ty) (v : J), s.wf = tru
           rw [getKey_of_mem_nodup (by rw [keys_fields_out]; exact hswf'.1) hmem, hgk]
           simp only [fieldOut]
           exact ih k t hkt (hwf'.2 k t hkt) t' x (hswf'.2 k t' hkt')
-            (valid_of_shape _ _ (h2 k t' x hkt' hgk)) (hdf k t' x hkt' hgk) hat (hp k t t' hkt hg)
+            (valid_of_shape _ _ (h2 k t' x hkt' hgk)) hat (hp k t t' hkt hg)
     | _ => simp [assignable] at ha
 
 /-! ### `noHole` is exact: on every other assignable pair a counterexample exists -/
@@ -1029,33 +961,29 @@ theorem noHole_exact (d : Ty) : d.wf = true → ∀ s : Ty, s.wf = true → assi
       rcases hn with ⟨hd, hs'⟩ | hn
       · -- F9: directory-like destination, source is not
         refine ⟨.obj [([0x61, 0x2F, 0x62], .null)], Shape.tmap _ _ ?_ ?_, ?_⟩
-        · intro k v hg
-          simp only [getKey] at hg
-          split at hg <;> simp at hg
-          rw [← hg]; exact Shape.null _
+        · intro kv hkv
+          simp only [List.mem_singleton] at hkv
+          subst hkv; exact Shape.null _
         · intro h; rw [hs'] at h; cases h
-        · obtain ⟨out, hout, hget⟩ := filter_tmap_getKey d [([0x61, 0x2F, 0x62], .null)]
-          rw [hout]
+        · rw [filter_tmap_fst]
           intro h
           cases h with
           | tmap _ _ _ h2 =>
-            have := h2 hd [0x61, 0x2F, 0x62] (filter d .null).1 (by rw [hget]; simp [getKey])
+            have : legalName [0x61, 0x2F, 0x62] = true :=
+              h2 hd ([0x61, 0x2F, 0x62], (filter d .null).1) (by simp)
             revert this; decide
       · obtain ⟨w, hw1, hw2⟩ := ih (by simpa [Ty.wf] using hwf) s' (by simpa [Ty.wf] using hswf) ha hn
         refine ⟨.obj [([0x6B], w)], Shape.tmap _ _ ?_ ?_, ?_⟩
-        · intro k v hg
-          simp only [getKey] at hg
-          split at hg <;> simp at hg
-          rw [← hg]; exact hw1
-        · intro _ k v hg
-          simp only [getKey] at hg
-          split at hg <;> simp at hg
-          rename_i hk; rw [← hk]; decide
-        · obtain ⟨out, hout, hget⟩ := filter_tmap_getKey d [([0x6B], w)]
-          rw [hout]
+        · intro kv hkv
+          simp only [List.mem_singleton] at hkv
+          subst hkv; exact hw1
+        · intro _ kv hkv
+          simp only [List.mem_singleton] at hkv
+          subst hkv; show legalName [0x6B] = true; decide
+        · rw [filter_tmap_fst]
           intro h
           cases h with
-          | tmap _ _ h1 _ => exact hw2 (h1 [0x6B] _ (by rw [hget]; simp [getKey]))
+          | tmap _ _ h1 _ => exact hw2 (h1 ([0x6B], (filter d w).1) (by simp))
     | struct n fs' =>
       -- F10: an undeclared member with a value the map's element type does not accept
       have hswf' := Fields.wf_iff.mp (by simpa [Ty.wf] using hswf)
@@ -1074,12 +1002,11 @@ theorem noHole_exact (d : Ty) : d.wf = true → ∀ s : Ty, s.wf = true → assi
           rintro rfl; exact hfresh (List.mem_map.mpr ⟨(fresh, t), hkt, rfl⟩)
         rw [getKey_append_ne _ hne, hb k t hkt] at hg
         cases hg; exact Shape.null _
-      · obtain ⟨out, hout, hget⟩ := filter_tmap_getKey d ((fs'.toList.map fun kt => (kt.1, (fun _ => J.null) kt.1)) ++ [(fresh, bad)])
-        rw [hout]
+      · rw [filter_tmap_fst]
         intro h
         cases h with
         | tmap _ _ h1 _ =>
-          exact hbad (h1 fresh _ (by rw [hget, getKey_append_last]; rfl))
+          exact hbad (h1 (fresh, (filter d bad).1) (by simp))
     | _ => simp [assignable] at ha
   | struct n fs ih =>
     intro hwf s hswf ha hn
